@@ -61,6 +61,12 @@ func mkGateway(ns, name, class string, created int, ls []gwListener) *gatewayv1.
 			ar.Namespaces.Selector = &metav1.LabelSelector{MatchLabels: l.Selector, MatchExpressions: l.Exprs}
 		}
 		for _, k := range l.Kinds {
+			// "group/Kind" names a kind of another (or the explicit Gateway API) group
+			if grp, kind, ok := strings.Cut(k, "/"); ok {
+				gg := gatewayv1.Group(grp)
+				ar.Kinds = append(ar.Kinds, gatewayv1.RouteGroupKind{Group: &gg, Kind: gatewayv1.Kind(kind)})
+				continue
+			}
 			ar.Kinds = append(ar.Kinds, gatewayv1.RouteGroupKind{Kind: gatewayv1.Kind(k)})
 		}
 		gl := gatewayv1.Listener{Name: gatewayv1.SectionName(l.Name), Port: gatewayv1.PortNumber(l.Port), Protocol: gatewayv1.ProtocolType(l.Protocol), AllowedRoutes: ar}
@@ -200,13 +206,19 @@ func (g *gwGen) listeners() []gwListener {
 		case 1:
 			l.Hostname = "*"
 		}
-		switch g.pick(5) {
+		switch g.pick(8) {
 		case 0:
 			l.Kinds = []string{"HTTPRoute"}
 		case 1:
 			l.Kinds = []string{"TCPRoute"}
 		case 2:
 			l.Kinds = []string{"HTTPRoute", "TCPRoute"}
+		case 3:
+			l.Kinds = []string{"other.k8s.io/FooRoute", gatewayv1.GroupName + "/HTTPRoute", "TCPRoute"}
+		case 4:
+			l.Kinds = []string{"other.k8s.io/HTTPRoute", "other.k8s.io/TCPRoute"}
+		case 5:
+			l.Kinds = []string{"HTTPRoute", "other.k8s.io/FooRoute"}
 		}
 		switch g.pick(4) {
 		case 0, 1:
